@@ -445,7 +445,7 @@ func (w *c20World) apply(op c20Op) {
 				if op.A&(1<<i) == 0 {
 					continue
 				}
-				pv := c20Prevote{salt: fmt.Sprintf("salt%d", op.B+i), rates: c20Rates(ctx, c.App.OracleKeeper, op.B+i), period: uint64(ctx.BlockHeight()) / c20VotePeriod}
+				pv := c20Prevote{salt: fmt.Sprintf("salt%d", op.B+i), rates: c20Rates(ctx, c.App.OracleKeeper, op.B+(1-abs(op.B)%2)*i), period: uint64(ctx.BlockHeight()) / c20VotePeriod}
 				feeder := c.App.OracleKeeper.FeederDelegations.GetOr(ctx, v, sdk.AccAddress(v))
 				_, err := ms.AggregateExchangeRatePrevote(ctx, &oracletypes.MsgAggregateExchangeRatePrevote{
 					Hash: oracletypes.GetAggregateVoteHash(pv.salt, pv.rates, v).String(), Feeder: feeder.String(), Validator: v.String()})
@@ -517,7 +517,11 @@ func c20Rates(ctx sdk.Context, k oraclekeeper.Keeper, variant int) string {
 		if i >= 2 {
 			break
 		}
-		ts = append(ts, oracletypes.ExchangeRateTuple{Pair: p, ExchangeRate: sdkmath.LegacyNewDec(int64(10*(i+1) + abs(variant)%3))})
+		rate := int64(10*(i+1) + abs(variant)%3)
+		if abs(variant)%2 == 1 {
+			rate = int64(10 + abs(variant)%3) // odd variants: every pair gets the SAME rate
+		}
+		ts = append(ts, oracletypes.ExchangeRateTuple{Pair: p, ExchangeRate: sdkmath.LegacyNewDec(rate)})
 	}
 	s, _ := ts.ToString()
 	return s
